@@ -80,21 +80,21 @@ package kademlia
 //@ spec func depthFresh(k *Kad) bool = int(k.depth) == depthOf(deref(k.connectedPeers), int(k.radius), ref(k.peerFilter))
 
 //@ func (*Kad).Disconnected
-//@   property C24
+//@   property C24 C22
 //@   requires k != nil && kadOK(k)
 //@   ensures dropped-from-connected: forall x boson.Address :: conn(k, x) <==> (old(conn(k, x)) && x != peer.Address)
 //@   ensures known-untouched: forall x boson.Address :: known(k, x) <==> old(known(k, x))
 //@   ensures depth-recomputed: depthFresh(k)
 
 //@ func (*Kad).onConnected
-//@   property C24
+//@   property C24 C22
 //@   requires k != nil && kadOK(k)
 //@   ensures admitted-into-both-sets: result == nil ==> forall x boson.Address :: (conn(k, x) <==> (old(conn(k, x)) || x == peer.Address)) && (known(k, x) <==> (old(known(k, x)) || x == peer.Address))
 //@   ensures failed-announce-changes-nothing: result != nil ==> forall x boson.Address :: (conn(k, x) <==> old(conn(k, x))) && (known(k, x) <==> old(known(k, x)))
 //@   ensures depth-recomputed: result == nil ==> depthFresh(k)
 
 //@ func (*Kad).Outbound
-//@   property C24
+//@   property C24 C22
 //@   requires k != nil && kadOK(k) && peer.Mode.Bv != nil
 //@   ensures connected-only-grows-by-the-peer: forall x boson.Address :: (conn(k, x) ==> old(conn(k, x)) || x == peer.Address) && (old(conn(k, x)) ==> conn(k, x))
 //@   ensures connected-means-known: conn(k, peer.Address) && !old(conn(k, peer.Address)) ==> known(k, peer.Address)
@@ -102,7 +102,7 @@ package kademlia
 //@   ensures depth-recomputed: conn(k, peer.Address) && !old(conn(k, peer.Address)) ==> depthFresh(k)
 
 //@ func (*Kad).DisconnectForce
-//@   property C24
+//@   property C24 C22
 //@   requires k != nil && kadOK(k)
 //@   ensures removed-from-both-sets: result == nil ==> forall x boson.Address :: (conn(k, x) <==> (old(conn(k, x)) && x != addr)) && (known(k, x) <==> (old(known(k, x)) && x != addr))
 //@   ensures failed-changes-nothing: result != nil ==> forall x boson.Address :: (conn(k, x) <==> old(conn(k, x))) && (known(k, x) <==> old(known(k, x)))
